@@ -51,8 +51,15 @@ func c03Amount(nonce, variant int64) int64 {
 }
 
 func (c *C03) event(nonce, variant int64) *mhubtypes.SendToHubEvent {
+	coin := EthHub
+	switch c.Chain {
+	case "minter":
+		coin = "2012" // the default genesis lists hub on Minter as coin 2012
+	case "bsc":
+		coin = BscHub
+	}
 	return &mhubtypes.SendToHubEvent{
-		EventNonce: uint64(nonce), ExternalCoinId: EthHub, Amount: sdk.NewInt(c03Amount(nonce, variant)),
+		EventNonce: uint64(nonce), ExternalCoinId: coin, Amount: sdk.NewInt(c03Amount(nonce, variant)),
 		Sender: hub.HexAddr("depositor"), CosmosReceiver: c.User.String(), ExternalHeight: uint64(100 + nonce),
 		TxHash: fmt.Sprintf("0xdep%d%d", nonce, variant),
 	}
